@@ -207,6 +207,9 @@ class Gen:
                     t = self.text(1, 8, forbid).strip(b" \t\x0b\x0c\r")
                     if t and t[:1] != b"[":
                         break
+                if self.rng.random() < 0.03:      # now and then a continuation line around the size of a stdio buffer
+                    t = b"L" * self.rng.randint(8185, 8200)
+                    self.count("continuation_line_8k")
                 ci, ct = self.blanks(1, 3), self.blanks(0, 2)
                 cl = ci + t + ct
                 it["lines"].append(cl)
